@@ -430,8 +430,12 @@ inductive Sel (σ : Type) where
   | header (d : Decoder σ)
   | peek
 
+/-- `strings.Contains(charset, "utf-8") || strings.Contains(charset, "utf8")` (bridged to the
+regenerated literals). -/
+def utf8Markers : List Bytes := [[117, 116, 102, 45, 56], [117, 116, 102, 56]]
+
 def isUtf8Label (cs : Bytes) : Bool :=
-  containsSub cs utf8Name || containsSub cs [117, 116, 102, 56]
+  utf8Markers.any fun m => containsSub cs m
 
 def select (cfg : Config) (acceptEncoding contentType : Bytes) (mp : MediaParse)
     (lookup : Bytes → Option (Decoder σ)) : Sel σ :=
